@@ -478,8 +478,13 @@ class PathEnumerator:
         if p is None:
             return
         c = _const(value) if value is not None else _MISSING
+        src = _place(value) if value is not None else None
         if c is not _MISSING:
             st.facts.set_eq(p, c)
+        elif src is not None and src != p and st.facts.get(src):
+            known = st.facts.copy().get(src)  # ``mode = self.write_mode`` copies what is known
+            st.facts.forget(p)
+            st.facts.d[p] = known
         else:
             st.facts.forget(p)
 
@@ -725,6 +730,8 @@ class Classifier:
         self.unresolved: set[str] = set()
         # names of methods known to return a field class (one reason each)
         self.class_valued_calls = {"get_class_by_rank"}  # DataFieldBase.get_class_by_rank returns a field class
+        # method names whose result a checker has established to be newly allocated
+        self.fresh_methods: set[str] = set()
 
     # -- helpers
     def canon(self, func: ast.AST, fi: FuncInfo) -> str | None:
@@ -781,8 +788,14 @@ class Classifier:
                         b = self.is_field_class_expr(v.orelse, path, d.idx, fi)
                         return a if a and b else None
                     return self.is_field_class_expr(v, path, d.idx, fi)
-                if d.kind == "iter" and func.id.endswith("class"):
-                    return None
+                if isinstance(d.node, ast.ImportFrom):
+                    # class imported inside the function body (``from .scalar import ScalarField``)
+                    for a in d.node.names:
+                        if (a.asname or a.name) == func.id:
+                            mod = _resolve_relative(fi, d.node)
+                            r = self.ix.resolve_dotted(f"{mod}.{a.name}") if mod else None
+                            if isinstance(r, ClassInfo) and self.field_base is not None and r.is_subclass_of(self.field_base):
+                                return r.name
                 return None
             r = self.ix.resolve_name(fi.module, func.id)
             if isinstance(r, ClassInfo) and self.field_base is not None and r.is_subclass_of(self.field_base):
@@ -986,7 +999,7 @@ class Classifier:
         # method calls
         if isinstance(e.func, ast.Attribute):
             m = e.func.attr
-            if m == "copy" or m in FRESH_METHODS:
+            if m == "copy" or m in FRESH_METHODS or m in self.fresh_methods:
                 return Val(FRESH, why=f".{m}() allocates its result")
             if m == "astype":
                 cp = self._kw(e, "copy")
@@ -1205,6 +1218,76 @@ def writes_of(path: Path, clf: Classifier, fi: FuncInfo, frame: int | None = 0) 
 
 
 # --------------------------------------------------------------------------- misc helpers
+def expand(e: ast.AST, path: Path, idx: int, depth: int = 0, max_depth: int = 6) -> ast.AST:
+    """copy of an expression with local names replaced by their (single-assignment)
+    definitions on this path, so that hoisted sub-expressions compare equal"""
+
+    class T(ast.NodeTransformer):
+        def visit_Name(self, n: ast.Name):
+            if depth >= max_depth:
+                return n
+            d = path.lookup(n.id, idx)
+            if d is not None and d.kind == "assign" and d.value is not None:
+                return expand(d.value, path, d.idx, depth + 1, max_depth)
+            return n
+
+        def visit_Call(self, n: ast.Call):
+            n = self.generic_visit(n)
+            if isinstance(n.func, ast.Name) and n.func.id == "slice" and not n.keywords and 1 <= len(n.args) <= 3:
+                a = list(n.args)
+                none = lambda x: None if isinstance(x, ast.Constant) and x.value is None else x  # noqa: E731
+                if len(a) == 1:
+                    return ast.Slice(lower=None, upper=none(a[0]), step=None)
+                return ast.Slice(lower=none(a[0]), upper=none(a[1]), step=none(a[2]) if len(a) == 3 else None)
+            return n
+
+    import copy
+
+    return T().visit(copy.deepcopy(e))
+
+
+def mentions(e: ast.AST, path: Path, idx: int, name: str) -> bool:
+    """does the value of ``e`` derive (through local definitions) from parameter ``name``"""
+    seen = set()
+
+    def walk(x: ast.AST, i: int, depth: int) -> bool:
+        for n in ast.walk(x):
+            if isinstance(n, ast.Name) and isinstance(n.ctx, ast.Load):
+                d = path.lookup(n.id, i)
+                if d is None or d.kind == "aug":
+                    # (an in-place update keeps the identity of the previous binding)
+                    if n.id == name:
+                        return True
+                    if d is None:
+                        continue
+                if d.value is not None and (id(d.value), d.idx) not in seen and depth < 8:
+                    seen.add((id(d.value), d.idx))
+                    if walk(d.value, d.idx, depth + 1):
+                        return True
+                if d.kind == "aug":
+                    p = path.lookup(n.id, d.idx)
+                    if p is None and n.id == name:
+                        return True
+                    if p is not None and p.value is not None and walk(p.value, p.idx, depth + 1):
+                        return True
+        return False
+
+    return walk(e, idx, 0)
+
+
+def stable_ref(f: FuncInfo, role: str | None = None) -> str:
+    """``file::qualname`` without the positional ``#n`` suffix the index gives to several
+    definitions of one name (getter/setter/overloads); ``role`` tells them apart"""
+    q = re.sub(r"#\d+", "", f.qualname)
+    if role is None:
+        decs = f.decorator_names
+        if any(d.endswith(".setter") for d in decs):
+            role = "setter"
+        elif any(d == "property" for d in decs):
+            role = "getter"
+    return f"{f.module.rel}::{q}" + (f"[{role}]" if role else "")
+
+
 def pick_def(ix: Index, rel: str, qualname: str, role: str) -> FuncInfo:
     """the getter / setter / plain definition among several sharing a qualified name
     (never addressed through the positional ``#2`` suffix); role: getter|setter|plain"""
